@@ -85,6 +85,18 @@ def _k1(v: Any, case: Any) -> bool:
     return bool(k1_instants(spans))
 
 
+# K4 -------------------------------------------------------------------------------------------
+@classifier("C03", "k4_old_builder_drops_host_thread_sharing_pid_tid_with_device_stream")
+def _k4(v: Any, case: Any) -> bool:
+    """The builder behind critical-path analysis (hta/common/call_stack.py) keeps only the device rows of a (pid, tid) group that
+    has any: a host thread whose (pid, tid) pair is also the (device ordinal, stream id) of device records loses ALL its events."""
+    w = v.witness
+    if v.clause != "every-event-once" or not (w.get("old_builder") and w.get("shares_pid_tid_with_device_stream")):
+        return False
+    spans = w.get("spans") or []
+    return bool(spans) and set(w.get("wrong_ids") or []) == {r[0] for r in spans}
+
+
 # K2 -------------------------------------------------------------------------------------------
 @classifier("C01", "k2_sync_named_event_without_correlation_duplicated_by_trimming")
 def _k2(v: Any, case: Any) -> bool:
